@@ -368,7 +368,7 @@ class TypeFactory:
         if k == "fn":
             name = r.choice(["StartsWith", "EndsWith", "HasKey"] + (["Regexp"] if self.allow_regexp else []))
             if name == "HasKey":
-                params = [r.choice(["k", "j", typing.Any]) for _ in range(r.randint(1, 2))]
+                params = [r.choice(["k", "j", typing.Any]) for _ in range(r.choice([1, 1, 2, 2, 3, 4]))]
             elif name == "Regexp":
                 params = [r.choice(["^a", "b$"])]
             else:
